@@ -325,14 +325,15 @@ def RStream.acceptReset (s : RStream) (finalSize reliable code : Nat) : FrameOut
 
 /-- `handleResetStreamFrame` (RESET_STREAM: `reliable = 0`; RESET_STREAM_AT: `reliable ≤ final`) -/
 def RStream.handleResetStreamFrame (s : RStream) (finalSize reliable code : Nat) : FrameOut :=
-  if s.shutdown then FrameOut.complete ⟨s, none, []⟩ false
+  -- since /repo 092ea54 a stream that newly completes here abandons its unread remainder, like handleStreamFrame
+  if s.shutdown then FrameOut.complete ⟨s, none, []⟩ true
   else
     let u := s.fc.updateHighestReceived finalSize true
     let s0 := { s with fc := u.1 }
     let o : FrameOut := match u.2 with
       | some e => ⟨s0, some e, []⟩
       | none => s0.acceptReset finalSize reliable code
-    FrameOut.complete ⟨o.s, o.err, Ev.fcUpdate finalSize true :: o.evs⟩ false
+    FrameOut.complete ⟨o.s, o.err, Ev.fcUpdate finalSize true :: o.evs⟩ true
 
 /-- `cancelReadImpl` → (state, queuedNewControlFrame) -/
 def RStream.cancelReadImpl (s : RStream) (code : Nat) : RStream × Bool :=
